@@ -572,4 +572,8 @@ def check(run):
     # integer literals are materialised with the sign/zero extension their type prescribes (shared with C09.R6)
     from props import c09, c03
     c09.r6_generator(run, F)
+    # what print!/format! write is what the literal holds: the bytes of a string literal reach the output unchanged, and user bytes
+    # are spliced into the snprintf template only where a `%` cannot occur (shared with C09.R7 / R10)
+    c09.r7_string_bytes(run, F)
+    c09.r10_format_splice(run, F)
     c03.r8_call_convention(run, F)
